@@ -99,6 +99,7 @@ type feCase struct {
 	evictAt  []time.Duration
 	ranges   []string
 	fuseOps  [][2]int64 // (offset, size)
+	fuseSeq  bool       // then sequential reads with evictions in between
 	idleRate uint32
 }
 
@@ -125,6 +126,7 @@ func TestC02FrontEnds(t *testing.T) {
 			c.ranges = append(c.ranges, rapid.SampledFrom([]string{"", fmt.Sprintf("bytes=%d-%d", min(a, b), max(a, b)), fmt.Sprintf("bytes=%d-", a), fmt.Sprintf("bytes=-%d", max(b, 1)),
 				fmt.Sprintf("bytes=%d-%d,%d-", 0, min(a, 10), b), fmt.Sprintf("bytes=%d-", flen+5), "bytes=0-0", "bytes=5-2", "items=0-5"}).Draw(rt, "range"))
 		}
+		c.fuseSeq = rapid.Bool().Draw(rt, "fuseSeq")
 		for i, n := 0, rapid.IntRange(1, 4).Draw(rt, "nfuse"); i < n; i++ {
 			c.fuseOps = append(c.fuseOps, [2]int64{rapid.Int64Range(0, flen+100).Draw(rt, "foff"), rapid.SampledFrom([]int64{1, 100, 4096, 65536, 131072}).Draw(rt, "fsize")})
 		}
@@ -324,6 +326,36 @@ func runFE(c feCase, out map[string]bool) string {
 	}
 	if len(c.fuseOps) > 1 {
 		labels.set("fuse-concurrent")
+	}
+	// the way the kernel reads a file: one read after the other on the same
+	// handle, here with everything evicted in between (memory pressure from
+	// another torrent).  A short read in the middle of a file is end-of-file to
+	// the kernel.
+	if flen > 200 && c.fuseSeq {
+		pos := int64(0)
+		for k := 0; k < 3 && pos < flen; k++ {
+			size := min(int64(100+k*4000), flen-pos)
+			resp := &bfuse.ReadResponse{Data: make([]byte, 0, size)}
+			done := make(chan error, 1)
+			go func() { done <- rd.Read(context.Background(), &bfuse.ReadRequest{Offset: pos, Size: int(size)}, resp) }()
+			select {
+			case err := <-done:
+				if err != nil {
+					return fmt.Sprintf("fuse: sequential Read(offset %d, size %d) failed: %v", pos, size, err)
+				}
+			case <-time.After(15 * time.Minute):
+				cancel()
+				return fmt.Sprintf("fuse: a sequential Read(offset %d, size %d) has not returned after 15 virtual minutes although an honest unchoking seed is connected", pos, size)
+			}
+			if !bytes.Equal(resp.Data, F[pos:pos+size]) {
+				return fmt.Sprintf("fuse: sequential Read(offset %d, size %d) on a %d-byte file, everything having been evicted since the previous read, returned %d bytes (contents equal so far: %v): a short read in the middle of a file is end-of-file to the kernel",
+					pos, size, flen, len(resp.Data), bytes.Equal(resp.Data, F[pos:pos+int64(min(len(resp.Data), int(size)))]))
+			}
+			pos += size
+			x.T.Pieces.Expire(0, nil, func(i uint32) { x.T.Have(i, false) })
+			sim.Settle()
+			labels.set("fuse-evicted-between-sequential-reads")
+		}
 	}
 	if rl, ok := h.(fs.HandleReleaser); ok {
 		rl.Release(context.Background(), &bfuse.ReleaseRequest{})
